@@ -23,7 +23,7 @@ func TestVerif(t *testing.T) {
 		ID:    "C07",
 		Level: "model_checking",
 		Rule: "(a) every DAG of U(4) (thorough U(5) for the memory store) and the curated family x every subset of nodes x every permutation of push order x {memory, file, OCI; file store with ForceCAS over U(3) [thorough U(4)]}: after the pushes Predecessors(n) of every node of the universe (present or not) " +
-			"must equal, as a multiset, the stored manifests whose generator edge list contains n; (b) OCI: curated shapes, root tagged or not, followed by every sequence of <= 3 operations from {Delete(x), GC, reopen rw|fs|tar}, same oracle after every step, " +
+			"must equal, as a multiset, the stored manifests whose generator edge list contains n; (b) OCI: curated shapes, root tagged or not, AutoGC on and off, followed by every sequence of <= 3 operations from {Delete(x), GC, reopen rw|fs|tar}, same oracle after every step, " +
 			"map-order deviations O<=1 at the graph's map ranges; (c) 3 goroutines pushing parent/child/sibling concurrently under every schedule within D<=2; for the OCI store the directory is then opened again (read-write and as fs.FS) and must give the same relation. non-trivial = distinct (shape, push order) in which a parent was pushed before one of its children",
 		Assumptions: []string{
 			"OCI layouts key content by digest, so shapes in which two nodes share a digest are skipped for the OCI store",
@@ -148,11 +148,13 @@ func jobs(tier string) []driver.Job {
 				out = append(out, driver.Job{Name: name, Run: func(c *driver.Ctx) {
 					depth, ord := 3, 0
 					c.Explore(driver.Scenario{Name: name, Sequential: true, Shard: sh, NShard: nsh,
-						Make: func() (func(), func(*vs.Result) *driver.Fail) { return ociHist(c, d, tagRoot, depth) }})
+						Make: func() (func(), func(*vs.Result) *driver.Fail) { return ociHist(c, d, tagRoot, true, depth) }})
+					c.Explore(driver.Scenario{Name: name + "/autogc=false", Sequential: true, Shard: sh, NShard: nsh,
+						Make: func() (func(), func(*vs.Result) *driver.Fail) { return ociHist(c, d, tagRoot, false, depth) }})
 					ord = 1
 					c.Explore(driver.Scenario{Name: name + "/O1", Sequential: true, Shard: sh, NShard: nsh, Bounds: explore.Bounds{Order: ord},
 						MapSite: func(s string) bool { return strings.HasPrefix(s, "memory.go") || strings.HasPrefix(s, "oci.go") },
-						Make:    func() (func(), func(*vs.Result) *driver.Fail) { return ociHist(c, d, tagRoot, 2) }})
+						Make:    func() (func(), func(*vs.Result) *driver.Fail) { return ociHist(c, d, tagRoot, true, 2) }})
 				}})
 			}
 		}
@@ -225,7 +227,7 @@ func orderSweep(c *driver.Ctx, d *DAG, kind string) {
 	})
 }
 
-func ociHist(c *driver.Ctx, d *DAG, tagRoot bool, depth int) (func(), func(*vs.Result) *driver.Fail) {
+func ociHist(c *driver.Ctx, d *DAG, tagRoot, autogc bool, depth int) (func(), func(*vs.Result) *driver.Fail) {
 	var fail *driver.Fail
 	var hist []string
 	body := func() {
@@ -238,6 +240,7 @@ func ociHist(c *driver.Ctx, d *DAG, tagRoot bool, depth int) (func(), func(*vs.R
 		if err != nil {
 			panic(err)
 		}
+		st.AutoGC = autogc
 		m := NewModel(d)
 		for i := range d.Nodes {
 			m.Apply(Op{Kind: "push", Node: i})
@@ -264,9 +267,12 @@ func ociHist(c *driver.Ctx, d *DAG, tagRoot bool, depth int) (func(), func(*vs.R
 					continue // read-only reopen: no more mutations
 				}
 				hist = append(hist, "delete("+d.Nodes[k-1].Name+")")
-				_, amb, _ := m.DeleteAutoGC(k - 1)
-				if amb {
-					return
+				if autogc {
+					if _, amb, _ := m.DeleteAutoGC(k - 1); amb {
+						return
+					}
+				} else {
+					m.Apply(Op{Kind: "delete", Node: k - 1})
 				}
 				st.Delete(context.Background(), d.Nodes[k-1].Desc)
 			case k == n+1:
@@ -287,6 +293,7 @@ func ociHist(c *driver.Ctx, d *DAG, tagRoot bool, depth int) (func(), func(*vs.R
 				defer clean()
 				cur = re
 				if s2, ok := re.(*oci.Store); ok {
+					s2.AutoGC = autogc
 					st, live = s2, true
 				} else {
 					live = false
@@ -298,7 +305,7 @@ func ociHist(c *driver.Ctx, d *DAG, tagRoot bool, depth int) (func(), func(*vs.R
 					last = last[:i]
 				}
 				fail = &driver.Fail{Sig: "oci: Predecessors differs from the inverse edge list after " + last,
-					Detail: fmt.Sprintf("%s\nhistory: push all ; tagroot=%v ; %s\n--- store\n%s--- expected\n%s", d, tagRoot, strings.Join(hist, " ; "), got, want)}
+					Detail: fmt.Sprintf("%s\nhistory: push all ; tagroot=%v autogc=%v ; %s\n--- store\n%s--- expected\n%s", d, tagRoot, autogc, strings.Join(hist, " ; "), got, want)}
 				return
 			}
 		}
